@@ -23,6 +23,8 @@ import MW.Lemmas.PendHistCredEx
 import MW.Lemmas.PendHistNotifyEx
 import MW.Lemmas.PendHistComposeEx
 import MW.Lemmas.PendHistNotifySpecEx
+import MW.Lemmas.PendHistSeenEx
+import MW.Lemmas.PendHistNotifyDomEx
 import MW.Lemmas.TxmgrCodecRec
 namespace MW.Props.C09
 open MW MW.Model.Ledger MW.Lemmas.LedgerPending
@@ -778,6 +780,88 @@ example : (Spec.Pending.onChainMoved exE.env ([exG, exB1] ++ [exB2]) ([exG, exB1
     exS7.pending.map (·.1) = ["T1", "T2"] ∧
     (processBlock (exE.ctx exV.node) exV.s exV.v exB2x).1.pending.map (·.1) = ["T1", "T2"] := exRefines_obs
 
+-- ------------------------------------------------------------------ Round 7: `NotifyDom` derived from `HOK` + `HInv`
+section NotifyDomDerived
+open MW.Lemmas.PendHist MW.Lemmas.PendHist.Cred MW.Lemmas.PendHist.Notify MW.Lemmas.PendHist.Compose
+  MW.Lemmas.PendHist.NotifySpec MW.Lemmas.PendHist.NotifyDomD MW.Lemmas.Ledger
+
+/-- the `DiscDom`s of the disconnect steps of a notification's run (inside `HOK`) describe the whole disconnected branch:
+    every block of `old` satisfies the chain-level clauses w.r.t. the chain below it -/
+theorem notify_old_branch_of_hok (rank : TxId → Nat) (E : HEnv) (w : HW) (H : HInv rank E w) (sm : Store) (n : Nat)
+    (hbest : w.v.best.height + 1 = w.sp.chain.length)
+    (hd : DReachFrom (E.ctx w.node) w.v.best.height w.s sm n)
+    (hD : ∀ x ∈ worldsH E w (List.replicate n .disconnect), HOK rank E x.1 x.2)
+    (c0 old : List Block) (hch : w.sp.chain = c0 ++ old) (hlen : old.length = n) : BranchOK E c0 old :=
+  branch_of_run hd w rfl rfl H hbest hD c0 old hch hlen
+
+/-- … and both branches from the whole run of the notification: `BranchOK` of the disconnected, `NewOK` (parents on the
+    chain, `E.src`) of the connected one -/
+theorem notify_branches_of_hok (rank : TxId → Nat) (E : HEnv) (w : HW) (H : HInvC rank E w)
+    (hbest : w.v.best.height + 1 = w.sp.chain.length) (sm s' : Store) (n : Nat) (bs : List Block)
+    (hd : DReachFrom (E.ctx w.node) w.v.best.height w.s sm n)
+    (hc : CReachL (E.ctx w.node) (readyWallets sm E.wallets) sm s' bs)
+    (c0 old : List Block) (hch : w.sp.chain = c0 ++ old) (hlen : old.length = n)
+    (hD : ∀ x ∈ worldsH E w (notifyEvs n bs), HOK rank E x.1 x.2) :
+    BranchOK E c0 old ∧ NewOK E c0 bs := trace_branches w H hbest hd hc c0 old hch hlen hD
+
+/-- the G-B1-B2 → G-B1-B2x notification (hypotheses: the example after `notify_refines`) -/
+example : BranchOK exE [exG, exB1] [exB2] ∧ NewOK exE [exG, exB1] [exB2x] := exBranches
+
+/-- `NotifyDom.disc` (`DiscAll`: distinct ids, consistency, the three per-block clauses) IS A THEOREM of `HInv` and that -/
+theorem notify_disc_derived (rank : TxId → Nat) (E : HEnv) (w : HW) (H : HInv rank E w) (c0 old : List Block)
+    (hch : w.sp.chain = c0 ++ old) (B : BranchOK E c0 old) : DiscAll E.env c0 old w.sp.pend :=
+  discAll_of_branch H c0 old hch B
+
+/-- `NotifyDom` from `HInv`, the per-step domains of the run (`BranchOK` of the old, `NewOK` of the new branch) and the
+    RESIDUE `NotifyRes`: `fork` (no block of the old branch on the new BRANCH), `cbfork` (no coinbase of the old branch on
+    the new branch), `nodbl` (no cross-block double spend of a confirmed candidate inside the new branch) -/
+theorem notify_dom_derived (rank : TxId → Nat) (E : HEnv) (w : HW) (H : HInv rank E w) (c0 old new : List Block)
+    (hch : w.sp.chain = c0 ++ old) (B : BranchOK E c0 old) (N : NewOK E c0 new)
+    (R : NotifyRes old new (w.sp.pend ++ backOf E.env old)) : NotifyDom E.env c0 old new w.sp.pend :=
+  notifyDom_of H c0 old new hch B N R
+
+/-- **NOTIFY REFINES ONE `onChainMoved`, `NotifyDom` DERIVED.**  `notify_refines` with the three-clause residue `NotifyRes`
+    in place of `NotifyDom`: everything else of `NotifyDom` follows from `HInvC` and `HOK` along the run of the
+    notification (and is returned as the first conjunct) -/
+theorem notify_refines_derived (rank : TxId → Nat) (E : HEnv) (w : HW) (H : HInvC rank E w)
+    (hbest : w.v.best.height + 1 = w.sp.chain.length) (b : Block) (s' : Store) (v' : Vol)
+    (h : processBlock (E.ctx w.node) w.s w.v b = (s', v', true)) :
+    ∃ n bs, ∀ c0 old, w.sp.chain = c0 ++ old → old.length = n →
+      (∀ x ∈ worldsH E w (notifyEvs n bs), HOK rank E x.1 x.2) →
+      NotifyRes old bs (w.sp.pend ++ backOf E.env old) →
+      NotifyDom E.env c0 old bs w.sp.pend ∧
+      Inv (E.ctx w.node) s' (c0 ++ bs) ∧
+      PendRel rank s' (Spec.Pending.onChainMoved E.env (c0 ++ old) (c0 ++ bs) w.sp.pend) ∧
+      CredRel E.env s' (Spec.Pending.onChainMoved E.env (c0 ++ old) (c0 ++ bs) w.sp.pend) :=
+  notify_refines_res w H hbest b s' v' h
+
+/-- non-vacuity: the G-B1-B2 → G-B1-B2x notification meets `NotifyRes`; `NotifyDom` and the conclusion are derived -/
+example : NotifyRes [exB2] [exB2x] (exV.sp.pend ++ backOf exE.env [exB2]) := exNotifyResV
+example : NotifyDom exE.env [exG, exB1] [exB2] [exB2x] exV.sp.pend :=
+  notify_dom_derived exRankH exE exV exHInvCV.inv [exG, exB1] [exB2] [exB2x] exChainV exBranches.1 exBranches.2 exNotifyResV
+
+/-- NECESSITY of `cbfork`: the same-coinbase move (replayed on the code, Round 6c) meets `fork` and `nodbl`, violates
+    `cbfork`, and one move ≠ the composition there -/
+theorem notify_res_cbfork_necessary :
+    ((Spec.Pending.onChainMoved scE ([scG] ++ scOld) ([scG] ++ scNew) [scP, scT]).map (·.id) = ["T"] ∧
+     (connFold scE [scG] scNew (discFold scE [scG] scOld ([scG] ++ scOld, [scP, scT]))).2.map (·.id) = []) ∧
+    ((∀ x ∈ scOld, ∀ y ∈ scNew, y.id ≠ x.id) ∧
+     (∀ k, k ≤ scNew.length → ∀ p ∈ [scP, scT] ++ backOf scE scOld, Spec.Pending.onChain (scNew.take k) p.id = true →
+       Spec.Pending.conflictedBy (scNew.take k) p = false) ∧
+     ¬ (∀ x ∈ scOld, ∀ u ∈ x.txs, u.cb = true → Spec.Pending.onChain scNew u.id = false)) :=
+  ⟨sc_same_coinbase, sc_res_only_cbfork⟩
+
+/-- NECESSITY of `nodbl`: a new branch B1x(U spends X:0)-B2x(P spends X:0) on G, P and its child T pending, meets `fork`
+    and `cbfork`, violates `nodbl`; one move keeps T, the composition drops it; the move is outside `NotifyDom` -/
+theorem notify_res_nodbl_necessary :
+    ((Spec.Pending.onChainMoved dbE ([scG] ++ []) ([scG] ++ dbNew) [dbP, dbT]).map (·.id) = ["T"] ∧
+     (connFold dbE [scG] dbNew (discFold dbE [scG] [] ([scG] ++ [], [dbP, dbT]))).2.map (·.id) = []) ∧
+    ¬ (∀ k, k ≤ dbNew.length → ∀ p ∈ [dbP, dbT] ++ backOf dbE [], Spec.Pending.onChain (dbNew.take k) p.id = true →
+      Spec.Pending.conflictedBy (dbNew.take k) p = false) ∧
+    ¬ NotifyDom dbE [scG] [] dbNew [dbP, dbT] :=
+  ⟨dbl_new_branch, dbl_res_only_nodbl.2.2, dbl_not_notifyDom⟩
+end NotifyDomDerived
+
 /-- FORMERLY OPEN (2), PROVED in Round 6: the credit relation along ALL histories of `pending_refines`, i.e.
     `credit_refines_partial` without the hypothesis at the disconnect steps.  Receive, connect and the purge of disconnect
     were proved in Round 5; the missing piece — the per-record loop of Rollback re-creates the pending credits / deposit
@@ -800,6 +884,81 @@ example : ∀ x ∈ MW.Lemmas.PendHist.worldsH MW.Lemmas.PendHist.exE MW.Lemmas.
     | .recv t => MW.Lemmas.PendHist.Cred.RecvDomC MW.Lemmas.PendHist.exRankH MW.Lemmas.PendHist.exE x.1 t
     | ev => MW.Lemmas.PendHist.HOK MW.Lemmas.PendHist.exRankH MW.Lemmas.PendHist.exE x.1 ev :=
   MW.Lemmas.PendHist.CredRb.exDomainF_match
+
+-- ------------------------------------------------------------------ Round 7: the seen-set as STATE of the history world
+section SeenState
+open MW.Lemmas.PendHist MW.Lemmas.PendHist.Cred MW.Lemmas.PendHist.CredRb MW.Lemmas.PendHist.Seen MW.Spec.Pending
+
+/-- THE SEEN-SET INVARIANT IS MAINTAINED.  World `HWS` = the history world + the ghost set `dead` of the ids that left
+    "pending ∪ confirmed" (`stepS`); `SeenSt`: the follower's seen-set `Vol.mempool` ⊆ pending ∪ confirmed ∪ dead.  Every event
+    inside `HOKS` keeps it (the naive "seen ⊆ pending ∪ confirmed" is false of model and code: a conflict-purged
+    transaction keeps its id in the seen-set) -/
+theorem seen_state_step (rank : TxId → Nat) (E : HEnv) (x : HWS) (H : HInvC rank E x.w) (hs : SeenSt x) (ev : HEv)
+    (D : HOKS rank E x ev) : SeenSt (stepS E x ev) := seen_step H hs ev D
+
+/-- the receive domain over that world implies the old one: `seen` is a consequence of the state invariant + `alive`,
+    `fresh` of `conf` -/
+theorem recv_domain_of_seen_state (rank : TxId → Nat) (E : HEnv) (x : HWS) (t : Tx) (hs : SeenSt x)
+    (D : RecvDomS rank E x t) : RecvDomC rank E x.w t := D.toC hs
+
+/-- **PENDING / CREDITS REFINE, SEEN-SET AS STATE** (`pending_refines` and `credit_refines` restated).  From a world with
+    `HInvC` whose seen-set satisfies `SeenSt` (e.g. after a restart, `seenSt_restart`), for EVERY history inside `HOKS` —
+    `HOK` where the receive domain has no `seen` / `fresh` clause (instead: `alive`, the node does not re-deliver a
+    vanished transaction the follower still remembers, and `conf`, a delivered transaction that is on the wallet's chain
+    has been seen) and a volatile change must produce a seen-set inside the invariant — after the history: `HInvC`, the
+    seen-set invariant, and the four observations of `pending_refines` / `credit_refines`.  The model and specification
+    components are those of `runH` (`runS_w`). -/
+theorem pending_refines_seen (rank : TxId → Nat) (E : HEnv) (x : HWS) (evs : List HEv) (H : HInvC rank E x.w)
+    (hs : SeenSt x) (hD : ∀ y ∈ worldsS E x evs, HOKS rank E y.1 y.2) :
+    (runS E x evs).w = runH E x.w evs ∧ HInvC rank E (runS E x evs).w ∧ SeenSt (runS E x evs) ∧
+    (∀ id, (AMap.get (runS E x evs).w.s.pending id).isSome = (runS E x evs).w.sp.pend.any (fun t => t.id = id)) ∧
+    (∀ c i, spentByUnmined (runS E x evs).w.s c i = spentByPending (runS E x evs).w.sp.pend c i) ∧
+    (∀ op id, Listed (runS E x evs).w.s op id ↔ ∃ t ∈ (runS E x evs).w.sp.pend, t.id = id ∧ Spends t op) ∧
+    (∀ id j amt, (∃ cr, AMap.get (runS E x evs).w.s.pendCred (id, j) = some cr ∧ cr.amt = amt) ↔
+      (id, j, amt) ∈ pendingCredits E.env (runS E x evs).w.sp.pend) :=
+  have h := hoks_run evs x H hs hD
+  ⟨runS_w E evs x, h.1, h.2.1, h.1.inv.rel.ids_eq, h.1.inv.rel.sbu, h.1.inv.rel.listed, h.1.cred.pcred h.1.inv.rel.nodup⟩
+
+/-- every history inside `HOKS` is, projected to the world without ghost state, inside the domain `HOKf` of
+    `credit_refines` (hence inside `HOK` of `pending_refines` with the residue clause a theorem) -/
+theorem seen_domain_sound (rank : TxId → Nat) (E : HEnv) (x : HWS) (evs : List HEv) (H : HInvC rank E x.w)
+    (hs : SeenSt x) (hD : ∀ y ∈ worldsS E x evs, HOKS rank E y.1 y.2) :
+    ∀ y ∈ worldsH E x.w evs, HOKf rank E y.1 y.2 := (hoks_run evs x H hs hD).2.2
+
+/-- THE OLD THEOREMS ARE COROLLARIES: a history inside the old domain `HOKf` (per-step `seen` / `fresh`) whose volatile
+    events keep the seen-set inside the invariant is inside `HOKS`, whatever the ghost set; so `credit_refines` /
+    `pending_refines` on such a history are instances of `pending_refines_seen` -/
+theorem seen_domain_complete (rank : TxId → Nat) (E : HEnv) (x : HWS) (evs : List HEv) (H : HInvC rank E x.w)
+    (hD : ∀ y ∈ worldsH E x.w evs, HOKf rank E y.1 y.2)
+    (hV : ∀ y ∈ worldsS E x evs, ∀ v, y.2 = .vol v → SeenOK y.1 v.mempool) :
+    ∀ y ∈ worldsS E x evs, HOKS rank E y.1 y.2 := hokf_embeds evs x H hD hV
+
+/-- … in general (volatile events included): over the ghost set `ghost0` = what the follower remembers at the start and
+    what the volatile events of the history install, the start world satisfies the seen-set invariant and EVERY history
+    inside the old domain `HOKf` is inside `HOKS` -/
+theorem seen_domain_complete_all (rank : TxId → Nat) (E : HEnv) (w : HW) (evs : List HEv) (H : HInvC rank E w)
+    (hD : ∀ y ∈ worldsH E w evs, HOKf rank E y.1 y.2) :
+    SeenSt (ghost0 w evs) ∧ ∀ y ∈ worldsS E (ghost0 w evs) evs, HOKS rank E y.1 y.2 := hokf_embeds_all evs w H hD
+
+/-- `credit_refines` (statement unchanged) AS A COROLLARY of `pending_refines_seen` -/
+theorem credit_refines_of_seen (rank : TxId → Nat) (E : HEnv) (w : HW) (evs : List HEv) (H : HInvC rank E w)
+    (hD : ∀ x ∈ worldsH E w evs, HOKf rank E x.1 x.2) :
+    HInvC rank E (runH E w evs) ∧
+    (∀ id j amt, (∃ cr, AMap.get (runH E w evs).s.pendCred (id, j) = some cr ∧ cr.amt = amt) ↔
+      (id, j, amt) ∈ pendingCredits E.env (runH E w evs).sp.pend) := by
+  have e := hokf_embeds_all evs w H hD
+  have h := pending_refines_seen rank E (ghost0 w evs) evs H e.1 e.2
+  have h1 : (runS E (ghost0 w evs) evs).w = runH E w evs := h.1
+  rw [← h1]
+  exact ⟨h.2.1, h.2.2.2.2.2.2⟩
+
+/-- non-vacuity: the round-6 history from the fresh wallet, empty ghost set: invariant at the start, inside `HOKS`;
+    after it the seen-set is {T1, T2} (both pending again), the ghost set {C2} (coinbase of the disconnected B2) -/
+example : HInvC exRankH exE exX0.w ∧ SeenSt exX0 ∧ (∀ y ∈ worldsS exE exX0 exEvs6, HOKS exRankH exE y.1 y.2) :=
+  ⟨exHInvC0, exSeen0, exDomainS⟩
+example : (runS exE exX0 exEvs6).w.v.mempool = ["T1", "T2"] ∧ (runS exE exX0 exEvs6).dead = ["C2"] ∧
+    (runS exE exX0 exEvs6).w.sp.pend.map (·.id) = ["T2", "T1"] := exRunS_obs
+end SeenState
 
 /-- the former schematic statement over driver strings (kept for reference; `pending_refines` is its typed form) -/
 def C09_full_history_refinement (Domain : List (List String) → Prop)
